@@ -175,7 +175,11 @@ func dischargeAll(items []OblResult, dir string, timeoutS, seed, par int) {
 			txt := it.VC.emit(it.Obl, false)
 			file := filepath.Join(dir, fmt.Sprintf("%04d_%s.smt2", idx, truncate(sanitize(it.Obl.Name), 120)))
 			os.WriteFile(file, []byte(txt), 0o644)
-			it.Res = solve(file, timeoutS, seed, false)
+			t := timeoutS
+			if it.Obl.Cover && t > 3 {
+				t = 3
+			}
+			it.Res = solve(file, t, seed, false)
 			it.Res.VCBytes = len(txt)
 		}(&items[i], i)
 	}
